@@ -674,7 +674,7 @@ func c06ChannelOwner(c *Ctx) {
 				if !isFA {
 					continue
 				}
-				fr, okf := fieldRefOf(fa.X.Type(), fa.Field)
+				fr, okf := fieldRefOfAddr(fa)
 				if !okf || fr.Pkg != "bulkhead" || fr.Type != "bulkhead" || fr.Field != actualField("bulkhead", "bulkhead", "semaphore") {
 					continue
 				}
